@@ -32,6 +32,14 @@ type Impl struct{ N int }
 
 func (i Impl) M() int { return i.N }
 
+type Narrow interface{ Other() }
+
+type narrowImpl struct{}
+
+func (narrowImpl) Other() {}
+
+var NarrowV Narrow = narrowImpl{}
+
 type PImpl struct{ N int }
 
 func (p *PImpl) M() int { return p.N }
@@ -404,6 +412,7 @@ func checkC13(c *h.Check) {
 		{"impl-lit", "Impl{N: 6}", true, false}, {"impl-var", "ImplV", true, false}, {"ptr-impl-lit", "&PImpl{N: 7}", true, false},
 		{"not-impl", "SV", false, false}, {"value-of-ptr-recv", "PImpl{N: 1}", false, false}, {"iface-var", "Iv", true, false},
 		{"call", "Impl{N: F()}", true, true}, {"conv", "Impl(ImplV)", true, false},
+		{"value-of-unrelated-interface-type", "NarrowV", false, false}, {"nil-of-interface-type", "Narrow(nil)", false, false},
 	}
 	for _, v := range ivals {
 		for home := 0; home < 2; home++ {
